@@ -354,3 +354,8 @@ def run(ck):
               "the arm's text comes from inet_ntop" if not loose_ else
               "this arm of IP::toString produces the text without inet_ntop: a second, hand-written rendering of the address")
     lib.no_stale_static_rule(ck, "C19-R4", ('net.cc',), "the address and port parsers")
+
+    # ---------------- value classes do not point into themselves ----------------
+    lib.self_view_rule(ck, "C19-R5", ['Pistache::Address', 'Pistache::IP', 'Pistache::Port'],
+                       "addresses are stored and passed by value (Endpoint options, Peer)")
+
